@@ -153,7 +153,7 @@ PSY_INTERNAL:
     const CharacterConstant* findOrInsertCharacterConstant(const char* s, unsigned int size);
     const StringLiteral* findOrInsertStringLiteral(const char* s, unsigned size);
 
-    void relayLineStart(unsigned int offset);
+    void relayLineStart(unsigned int offset, unsigned int byteOffset);
     void relayExpansion(unsigned int offset, std::pair<unsigned, unsigned> p);
     void relayLineDirective(unsigned int offset, unsigned int lineno, const std::string& filePath);
 
